@@ -423,12 +423,57 @@ pub fn check_doc(lang_name: &str, source: &str, doc: &Value, p_name: &str, must_
       env.get_transformed(name).map(|b| (String::from_utf8_lossy(b).to_string(), 0))
     };
     let want = expand(&pieces, &lookup, line_indent_at(source, nm.range().start));
+    // the chain of substring / replace / convert transformations is recomputed from the captured text
+    let mut chain_bad = None;
+    if let Some(tr) = doc.get("transform").and_then(|t| t.as_object()) {
+      let val = |name: &str| -> Option<String> {
+        if let Some(n) = env.get_match(name) {
+          return Some(source[n.range()].to_string());
+        }
+        env.get_transformed(name).map(|b| String::from_utf8_lossy(b).to_string())
+      };
+      for (name, t) in tr {
+        let Some((op, body)) = t.as_object().and_then(|o| o.iter().next()) else { continue };
+        let Some(srcv) = body["source"].as_str().map(|x| x.trim_start_matches('$')) else { continue };
+        // the source must be a plain transformation or capture (not a multi capture / rewrite)
+        let Some(input) = val(srcv) else { continue };
+        let expected = match op.as_str() {
+          "substring" => {
+            let chars: Vec<char> = input.chars().collect();
+            let n = chars.len() as i64;
+            let norm = |v: Option<i64>, d: i64| match v {
+              None => d,
+              Some(v) if v < 0 => (n + v).max(0),
+              Some(v) => v.min(n),
+            };
+            let (a, b) = (norm(body["startChar"].as_i64(), 0), norm(body["endChar"].as_i64(), n));
+            if a >= b { String::new() } else { chars[a as usize..b as usize].iter().collect() }
+          }
+          "replace" => match regex::Regex::new(body["replace"].as_str().unwrap_or("")) {
+            Ok(re) => re.replace_all(&input, body["by"].as_str().unwrap_or("")).to_string(),
+            Err(_) => continue,
+          },
+          "convert" if body["toCase"] == "upperCase" => input.to_uppercase(),
+          _ => continue,
+        };
+        let got_t = env.get_transformed(name).map(|b| String::from_utf8_lossy(b).to_string());
+        if got_t.as_deref() != Some(expected.as_str()) {
+          chain_bad = Some(format!("transformation {name} = {op}({srcv}={input:?}) is {got_t:?}, expected {expected:?}"));
+          break;
+        }
+      }
+    }
+    if let Some(b) = chain_bad {
+      return Some((b, String::new()));
+    }
     Some((got, want))
   });
   match r {
     Ok(Some((got, want))) => {
       rep.count("converse_checked", 1);
-      if got != want {
+      if want.is_empty() && got.starts_with("transformation ") {
+        rep.violation("C12/transform-chain/value", &format!("{got} ({})", clip(&yaml, 300)), replay);
+      } else if got != want {
         let form = if doc["fix"].is_object() { "fix-object" } else { "fix-string" };
         rep.violation(&format!("C12/{form}/replacement-differs"), &format!("accepted rule rewrites to {:?}, but its variables expand to {:?} ({})", got, want, clip(&yaml, 300)), replay);
       }
